@@ -562,7 +562,12 @@ func (g *Gen) boolAtom(d int) *GExpr {
 				if r.Bool() {
 					args := []*GExpr{g.S(d-1, "op")}
 					for i := 0; i < n; i++ {
-						args = append(args, lit(pick(r, genStrLits)))
+						if a := g.aliasOf(TS); a != nil && g.on("alias-arg") && r.Chance(0.3) {
+							// an alias inside a function call that is an IN-list item
+							args = append(args, call(TS, pick(r, []string{"lower", "upper", "str"}), a))
+						} else {
+							args = append(args, lit(pick(r, genStrLits)))
+						}
 					}
 					return &GExpr{Kind: "in", T: TB, Op: "list", Args: args}
 				}
